@@ -54,7 +54,7 @@ def run_tlc(module: str, cfg: str | None = None, *, env: dict | None = None,
     meta = WORK / "tlc" / f"{name}-{os.getpid()}-{int(time.time()*1000) % 10**9}"
     meta.mkdir(parents=True, exist_ok=True)
     # Xms = Xmx and few GC threads: measured 7 s instead of 27 s on a 16-worker run
-    cmd = ["java", "-XX:+UseParallelGC", f"-XX:ParallelGCThreads={2 if str(workers) == "1" else 4}", f"-Xms{heap}", f"-Xmx{heap}"]
+    cmd = ["java", "-Xss64m", "-XX:+UseParallelGC", f"-XX:ParallelGCThreads={2 if str(workers) == "1" else 4}", f"-Xms{heap}", f"-Xmx{heap}"]
     if dfs:
         cmd.append("-Dtlc2.tool.queue.IStateQueue=StateDeque")
     cmd += ["-cp", JAVA_CP, "tlc2.TLC", "-workers", str(workers), "-metadir", str(meta),
